@@ -306,7 +306,8 @@ class Ctx:
             f["sanitizer.txt"] = text
             self.violation("%s%s" % (where + ":" if where else "", sig), "sanitizer report: " + text[:400], f)
             ok = False
-        if r.timed_out:
+        if r.timed_out or r.sig == signal.SIGXCPU:
+            # wall-clock watchdog or CPU rlimit: inconclusive, never a verdict (checks that judge hangs do so explicitly)
             if not allow_timeout:
                 with self.lock:
                     self.inconclusive.append(where + ":watchdog")
